@@ -78,7 +78,7 @@ theorem component_evaluated_once (W : World) (f : Nat) (ctx : Ctx) (st : St) (at
     (hlim : ¬ ctx.chain.length > includeLimit) (hf : W.files.lookup (getAttr attrs (S "include")) = some (fm, dom))
     (hreq : wrapperRequired (resolveTagsList W.comps (assignSeenAttrs (getAttr attrs (S "include")) dom)) ((setMany (st.stack.push vars) fm).envMap W.P.cfg) = none) :
     evalInclude W (f + 1) ctx st attrs kids vars =
-      bindR (evalList W f { slots := extractSlotContent kids :: ctx.slots, chain := ctx.chain ++ [getAttr attrs (S "include")] }
+      bindR (evalList W f { ctx with slots := mergeInherited (extractSlotContent kids) ctx.inherited :: ctx.slots, chain := ctx.chain ++ [getAttr attrs (S "include")] }
           { st with stack := setMany (st.stack.push vars) fm } (resolveTagsList W.comps (assignSeenAttrs (getAttr attrs (S "include")) dom)))
         (fun res st1 => .ok (res, { st1 with stack := st1.stack.pop })) := by
   simp only [evalInclude, hlim, ↓reduceIte, hf, hreq]
